@@ -108,6 +108,15 @@ SoftmaxCells ==
 XentCells == UNION {{[f |-> "softmax_crossentropy", sh |-> sh, axis |-> 1, y |-> y, x |-> Logs(TakeQ(Size(sh), o))] :
                        o \in {0, 1}, y \in {[i \in 1..sh[1] |-> (i * 2) % sh[2]], [i \in 1..sh[1] |-> 0]}}
                     : sh \in {<<2, 3>>, <<1, 2>>, <<3, 2>>}}
+\* the same functions on rows shifted by very different constants (x_i = ln q_i + off[row]): softmax, logsoftmax and the
+\* cross-entropy are invariant under a per-row shift, so every expectation is that of the unshifted cell - whatever the
+\* magnitudes (a shift computed from the whole batch instead of the row underflows for a gap of ~745)
+ShiftCells ==
+  {[f |-> f, sh |-> <<2, 3>>, axis |-> 1, off |-> off, x |-> Logs(TakeQ(6, o))] :
+     f \in {"softmax", "logsoftmax"}, o \in {0, 2}, off \in {<<0, 1000>>, <<-800, 0>>, <<5, -5>>}}
+  \cup {[f |-> "softmax_crossentropy", sh |-> sh, axis |-> 1, y |-> [i \in 1..sh[1] |-> (i * 2) % sh[2]], off |-> off,
+          x |-> Logs(TakeQ(Size(sh), o))] :
+          o \in {0, 1}, sh \in {<<2, 3>>, <<3, 2>>}, off \in {<<0, 1000, -3>>, <<-800, 0, 800>>}}
 EluCells == {[f |-> "elu", sh |-> <<4>>, alpha |-> a,
               x |-> <<L(F(1, 2)), V(Q(2)), L(F(1, 4)), V(F(3, 2))>>] : a \in {Q(1), F(1, 2), Q(2)}}
 GluCells == {[f |-> "glu", sh |-> <<2, 2>>, axis |-> 1, x |-> <<V(Q(2)), L(Q(3)), V(F(-1, 2)), L(F(1, 2))>>],
@@ -148,7 +157,7 @@ Usable(c) ==
                         \A p \in 1..Len(grp) : LET v == DSumSeq([i \in 1..Len(grp[p]) |-> DSquare(x[grp[p][i]])]).v IN RIsSquare(v) /\ v[1] > 0
     [] OTHER -> TRUE
 
-Cells == CASE Group = "exp" -> SigmoidCells \cup SoftmaxCells \cup XentCells \cup EluCells \cup GluCells
+Cells == CASE Group = "exp" -> SigmoidCells \cup SoftmaxCells \cup XentCells \cup EluCells \cup GluCells \cup ShiftCells
            [] Group = "sqrt" -> {c \in StdCells \cup NormCells : Usable(c)} \cup BatchNormCells
 
 Init == cell \in Cells
